@@ -2,7 +2,7 @@
 //@ props C01 C02 C04 C05
 //@@ verus-args --rlimit 40
 //@@ depends partitions
-//@@ fnprops C04 lemma_morphism_total lemma_assigned_along witness_morphism_total lemma_done_stable canary_morphism_contract lemma_track_step lemma_img_rng lemma_conn_cong lemma_conn_homog lemma_conn_base lemma_pop lemma_skip lemma_unite_step lemma_queue_push lemma_ci_pop lemma_good_images lemma_ci_push lemma_ci_none lemma_fold_result lemma_walk_rng lemma_img_involution lemma_pull_back lemma_minimal_iff_only_trivial canary_is_minimal_contract canary_fold_contract canary_connected_is_satisfiable lemma_jchain_rng lemma_jchain_cons lemma_jchain_sym lemma_jchain_trans lemma_joined_equiv lemma_least lemma_jrep lemma_jchain_cong lemma_join_good lemma_walk_cong lemma_coarsest lemma_mi_step lemma_mi_back lemma_mi_commutes canary_minimal_image_contract canary_join_is_satisfiable
+//@@ fnprops C04 witness_automorphisms_are_bijections lemma_const_along lemma_self_morphism_bijective lemma_morphism_total lemma_assigned_along witness_morphism_total lemma_done_stable canary_morphism_contract lemma_track_step lemma_img_rng lemma_conn_cong lemma_conn_homog lemma_conn_base lemma_pop lemma_skip lemma_unite_step lemma_queue_push lemma_ci_pop lemma_good_images lemma_ci_push lemma_ci_none lemma_fold_result lemma_walk_rng lemma_img_involution lemma_pull_back lemma_minimal_iff_only_trivial canary_is_minimal_contract canary_fold_contract canary_connected_is_satisfiable lemma_jchain_rng lemma_jchain_cons lemma_jchain_sym lemma_jchain_trans lemma_joined_equiv lemma_least lemma_jrep lemma_jchain_cong lemma_join_good lemma_walk_cong lemma_coarsest lemma_mi_step lemma_mi_back lemma_mi_commutes canary_minimal_image_contract canary_join_is_satisfiable
 //@@ fnprops C01 canary_from_str_contract
 //@@ fnprops C02 lemma_iter_ij_range lemma_step_ij_injective lemma_iter_ij_cancel lemma_r_bound canary_default_r_contract
 //@@ fnprops C05 canary_cover_contract lemma_fibres lemma_sheet lemma_compose lemma_bop lemma_xor1 lemma_xor1_inj
@@ -3027,6 +3027,91 @@ proof fn lemma_assigned_along<S: DSet, T: DSet>(this: &S, other: &T, m: Seq<usiz
 }
 
 
+// C04 "the automorphism list is exactly the set of operation-commuting, degree-preserving self-BIJECTIONS": a morphism of a complete symbol
+// that is connected from chamber 1 into itself is onto (its image contains the base image and, with its complement, is closed under every
+// operation, so the indicator of the image is constant along every path from chamber 1) and hence one to one (pigeonhole)
+pub open spec fn in_image(m: Seq<usize>, n: int, y: usize) -> bool { exists|x: int| 1 <= x <= n && #[trigger] m[x] == y }
+pub open spec fn bijective_on(m: Seq<usize>, n: int) -> bool {
+    &&& forall|x: int| 1 <= x <= n ==> 1 <= #[trigger] m[x] <= n
+    &&& forall|y: usize| 1 <= y <= n ==> in_image(m, n, y)
+    &&& forall|a: int, b: int| 1 <= a <= n && 1 <= b <= n && #[trigger] m[a] == #[trigger] m[b] ==> a == b
+}
+
+// a predicate that every operation preserves is constant along every path
+proof fn lemma_const_along<S: DSet>(ds: &S, f: spec_fn(usize) -> bool, p: Seq<int>, x: usize)
+    requires ds.wf(), base_complete(ds), path_ok(ds, p), rng(ds, x),
+        forall|i: int, z: usize| #![trigger f(img(ds, i, z))] 0 <= i <= ds.sdim() && rng(ds, z) ==> f(img(ds, i, z)) == f(z),
+    ensures f(walk(ds, p, x)) == f(x), rng(ds, walk(ds, p, x))
+    decreases p.len()
+{
+    if p.len() > 0 {
+        let p0 = p.drop_last();
+        assert(path_ok(ds, p0)) by { assert forall|k: int| 0 <= k < p0.len() implies 0 <= #[trigger] p0[k] <= ds.sdim() by { assert(p0[k] == p[k]); } }
+        lemma_const_along(ds, f, p0, x);
+        assert(0 <= p[p.len() - 1] <= ds.sdim());
+        lemma_img_rng(ds, p.last(), walk(ds, p0, x));
+    }
+}
+
+pub proof fn lemma_self_morphism_bijective<S: DSet>(this: &S, m: Seq<usize>, img0: usize)
+    requires this.wf(), base_complete(this), connected_from_1(this), is_morphism(this, this, m, img0), 1 <= img0 <= this.ssize(),
+        forall|d: int| 1 <= d <= this.ssize() ==> 1 <= #[trigger] m[d] <= this.ssize(),
+    ensures bijective_on(m, this.ssize())
+{
+    this.lemma_wf();
+    let n = this.ssize();
+    let f = |y: usize| in_image(m, n, y);
+    // the image and its complement are closed under every operation
+    assert forall|i: int, z: usize| #![trigger f(img(this, i, z))] 0 <= i <= this.sdim() && rng(this, z) implies f(img(this, i, z)) == f(z) by {
+        lemma_img_rng(this, i, z);
+        lemma_img_involution(this, i, z);
+        let zi = img(this, i, z);
+        if f(z) {
+            let x = choose|x: int| 1 <= x <= n && #[trigger] m[x] == z;
+            assert(valid_at(this, this, m, x));
+            assert(op_ok(this, this, m, x, i));
+            lemma_img_rng(this, i, x as usize);
+            assert(m[img(this, i, x as usize) as int] == zi);
+            assert(in_image(m, n, zi));
+        }
+        if f(zi) {
+            let x = choose|x: int| 1 <= x <= n && #[trigger] m[x] == zi;
+            assert(valid_at(this, this, m, x));
+            assert(op_ok(this, this, m, x, i));
+            lemma_img_rng(this, i, x as usize);
+            assert(m[img(this, i, x as usize) as int] == img(this, i, zi));
+            assert(in_image(m, n, z));
+        }
+    }
+    assert(f(img0)) by { assert(m[1] == img0); }
+    // onto: every chamber is walk(p, 1) for some path p, and so is img0
+    assert forall|y: usize| 1 <= y <= n implies in_image(m, n, y) by {
+        assert(rng(this, y) && rng(this, img0));
+        let p = choose|p: Seq<int>| path_ok(this, p) && #[trigger] walk(this, p, 1) == y;
+        let p0 = choose|p0: Seq<int>| path_ok(this, p0) && #[trigger] walk(this, p0, 1) == img0;
+        lemma_const_along(this, f, p, 1);
+        lemma_const_along(this, f, p0, 1);
+        assert(f(y) == f(1usize) && f(img0) == f(1usize));
+    }
+    // one to one: otherwise n + 1 distinct chambers (one preimage of every chamber, and the second preimage) would fit into 1..=n
+    assert forall|a: int, b: int| 1 <= a <= n && 1 <= b <= n && #[trigger] m[a] == #[trigger] m[b] implies a == b by {
+        if a != b {
+            let g = |y: int| choose|x: int| 1 <= x <= n && #[trigger] m[x] == y as usize;
+            assert forall|y: int| 1 <= y <= n implies 1 <= #[trigger] g(y) <= n && m[g(y)] == y as usize by { assert(in_image(m, n, y as usize)); }
+            let y0 = m[a] as int;
+            let extra = if g(y0) == a { b } else { a };
+            let s = Seq::new(n as nat, |k: int| g(k + 1)).push(extra);
+            assert forall|k: int| 0 <= k < s.len() implies 1 <= #[trigger] s[k] <= n by { if k < n { assert(s[k] == g(k + 1)); } }
+            assert forall|u: int, v: int| 0 <= u < v < s.len() implies s[u] != s[v] by {
+                assert(s[u] == g(u + 1));
+                if v < n { assert(s[v] == g(v + 1)); assert(m[g(u + 1)] == (u + 1) as usize && m[g(v + 1)] == (v + 1) as usize); }
+                else { assert(s[v] == extra); assert(m[extra] == y0 as usize); assert(m[g(u + 1)] == (u + 1) as usize); if g(u + 1) == extra { assert(u + 1 == y0); } }
+            }
+            lemma_pigeon(s, n);
+        }
+    }
+}
+
 // the contract of morphism is what lemma_morphism_total needs: for connected complete symbols Some(m) is a morphism on ALL chambers (must verify)
 fn witness_morphism_total<S: DSet, T: DSet>(a: &S, b: &T, img0: usize)
     requires a.wf(), b.wf(), base_complete(a), base_complete(b), a.sdim() == b.sdim(), connected_from_1(a), 1 <= img0 <= b.ssize()
@@ -3038,6 +3123,10 @@ fn witness_morphism_total<S: DSet, T: DSet>(a: &S, b: &T, img0: usize)
     }
 }
 
+// every image is a chamber, the base image included
+pub open spec fn images_in_range<S: DSet>(this: &S, m: Seq<usize>) -> bool {
+    1 <= m[1] <= this.ssize() && forall|d: int| 1 <= d <= this.ssize() ==> #[trigger] m[d] <= this.ssize()
+}
 // base image d is decided by the list: either some listed map sends chamber 1 to d, or no self-morphism does
 pub open spec fn base_decided<S: DSet>(this: &S, result: Seq<Vec<usize>>, d: int) -> bool {
     (exists|k: int| 0 <= k < result.len() && (#[trigger] result[k])@[1] == d)
@@ -3056,7 +3145,7 @@ pub open spec fn base_decided<S: DSet>(this: &S, result: Seq<Vec<usize>>, d: int
     requires this.wf()
     ensures
         // every listed map is a (partial) self-morphism ...
-        forall|k: int| 0 <= k < result@.len() ==> partial_morphism(this, this, (#[trigger] result@[k])@, result@[k]@[1]),
+        forall|k: int| 0 <= k < result@.len() ==> partial_morphism(this, this, (#[trigger] result@[k])@, result@[k]@[1]) && images_in_range(this, result@[k]@),
         // ... and a base image d is missing from the list only if NO self-morphism maps chamber 1 to d
         forall|d: int| 1 <= d <= this.ssize() ==> #[trigger] base_decided(this, result@, d),
     {
@@ -3066,7 +3155,7 @@ pub open spec fn base_decided<S: DSet>(this: &S, result: Seq<Vec<usize>>, d: int
         for d in 1..(this.size()) + 1
             invariant
                 this.wf(), this.ssize() < usize::MAX,
-                forall|k: int| 0 <= k < result@.len() ==> partial_morphism(this, this, (#[trigger] result@[k])@, result@[k]@[1]),
+                forall|k: int| 0 <= k < result@.len() ==> partial_morphism(this, this, (#[trigger] result@[k])@, result@[k]@[1]) && images_in_range(this, result@[k]@),
                 forall|c: int| 1 <= c < d ==> #[trigger] base_decided(this, result@, c),
         {
             let ghost r0 = result@;
@@ -3083,7 +3172,7 @@ pub open spec fn base_decided<S: DSet>(this: &S, result: Seq<Vec<usize>>, d: int
                             }
                         }
                     }
-                    assert forall|k: int| 0 <= k < result@.len() implies partial_morphism(this, this, (#[trigger] result@[k])@, result@[k]@[1]) by {
+                    assert forall|k: int| 0 <= k < result@.len() implies partial_morphism(this, this, (#[trigger] result@[k])@, result@[k]@[1]) && images_in_range(this, result@[k]@) by {
                         if k < r0.len() { assert(result@[k] == r0[k]); }
                     }
                 }
@@ -3093,6 +3182,23 @@ pub open spec fn base_decided<S: DSet>(this: &S, result: Seq<Vec<usize>>, d: int
         result
     }
 //@ end
+
+// C04 "the automorphism list of a connected symbol is exactly the set of operation-commuting, degree-preserving self-bijections": for a
+// complete symbol connected from chamber 1 every listed map is a morphism on ALL chambers and a bijection, and (base_decided + agrees:
+// a morphism is determined by its base image) every such bijection is listed.  The chain of contracts and lemmas connects (must verify).
+fn witness_automorphisms_are_bijections<S: DSet>(this: &S)
+    requires this.wf(), base_complete(this), connected_from_1(this)
+{
+    let autos = automorphisms(this);
+    proof {
+        assert forall|k: int| 0 <= k < autos@.len() implies is_morphism(this, this, (#[trigger] autos@[k])@, autos@[k]@[1]) && bijective_on(autos@[k]@, this.ssize()) by {
+            let m = autos@[k]@;
+            assert(partial_morphism(this, this, m, m[1]) && images_in_range(this, m));
+            lemma_morphism_total(this, this, m, m[1]);
+            lemma_self_morphism_bijective(this, m, m[1]);
+        }
+    }
+}
 
 // ---------------------------------------------------------------------------------------------------------
 // C05: derived symbols.  build_set is the engine of every cover constructor.
